@@ -18,6 +18,7 @@ import re
 from paths import refine_cuts, Inter
 from common import short, slice_locals, ref_local
 import guards
+from cfg import op_place
 import k11
 
 EXPLANATION = ("Bounded-growth, guarded-by, sibling-agreement and return-shape rules over the MIR CFG of the framed substream: remote-"
@@ -160,6 +161,30 @@ def r04_1(ctx, fx):
         ctx.ob("R04.1", "read_payload_size/Ok-only-after-is_last", ok, site=fn.site(fn.entry), cfg=fx.cfg)
 
 
+def _complete_writes(ctx, fx, fn, name, payload_rx, prefixed):
+    """a direct sender hands the message over with whole-buffer writes only: no partial-write primitive whose count the caller would
+    have to account for, the payload write covers the caller's payload without sub-slicing, and (varint) the encoded length is written
+    whole and before the payload.  Necessary for 'send reported complete => whole message handed to the transport'."""
+    partial = [c for c in fn.calls(r"AsyncWriteExt::(write|write_vectored|write_buf)$|AsyncWrite::poll_write(_vectored)?$") if not c.from_macro]
+    ctx.ob("R04.2", "%s/no-partial-write-primitive" % name, not partial, site=fn.site(partial[0].node) if partial else fn.site(fn.entry), cfg=fx.cfg,
+           detail="partial writes: %s" % [c.name for c in partial])
+    wa = [c for c in fn.calls(r"AsyncWriteExt::write_all$|write_all_chunks$")]
+    pay, pre = [], []
+    for c in wa:
+        rs = guards.rootstrs(fn, c.args[-1])
+        if any("unsigned_varint::encode::usize" in x for x in rs):
+            pre.append((c, rs))
+        elif any(re.search(payload_rx, fn.names.get(l, "")) for l in slice_locals(fn, c.args[-1])) or any(x.startswith("param:") for x in rs):
+            pay.append((c, rs))
+    ctx.ob("R04.2", "%s/payload-written-by-one-whole-buffer-write" % name, len(pay) == 1 and not any("Index" in x and "::index" in x for x in pay[0][1]),
+           site=fn.site(pay[0][0].node) if pay else fn.site(fn.entry), cfg=fx.cfg,
+           detail="payload writes: %d; roots %s" % (len(pay), sorted(pay[0][1])[:8] if pay else None))
+    if prefixed:
+        ok = len(pre) == 1 and len(pay) == 1 and pay[0][0].node not in fn.reach([fn.entry], avoid=[pre[0][0].node])
+        ctx.ob("R04.2", "%s/encoded-length-written-whole-before-the-payload" % name, ok, site=fn.site(pre[0][0].node) if pre else fn.site(fn.entry), cfg=fx.cfg,
+               detail="prefix writes: %d" % len(pre))
+
+
 def r04_2(ctx, fx):
     # --- Sink::start_send
     fn = ctx.fn(fx, SINK + "start_send", "R04.2")
@@ -191,19 +216,23 @@ def r04_2(ctx, fx):
         rx = r"^payload$"
         size_guard(ctx, fx, fn, "R04.2", "send_identity_payload", [c.node for c in wa], rx, "identity")
         _flush_on_ok(ctx, fx, fn, "send_identity_payload")
+        _complete_writes(ctx, fx, fn, "send_identity_payload", rx, False)
     fn = ctx.fn(fx, S + "send_unsigned_varint_payload::{closure#0}", "R04.2")
     if fn is not None:
         wa = [c for c in fn.calls(r"AsyncWriteExt::write_all$")]
-        ctx.anchor("R04.2", "send_unsigned_varint_payload: write_all", len(wa), 2, cfg=fx.cfg)
+        ctx.anchor("R04.2", "send_unsigned_varint_payload: write_all", len(wa), 1, cfg=fx.cfg)
         rx = r"^bytes$"
         size_guard(ctx, fx, fn, "R04.2", "send_unsigned_varint_payload", [c.node for c in wa], rx, "varint")
         enc = fn.calls(r"unsigned_varint::encode::usize$")
         ok = bool(enc) and all(is_len_of(fn, c.args[0], rx) for c in enc)
         ctx.ob("R04.2", "send_unsigned_varint_payload/prefix-encodes-bytes.len()", ok, site=fn.site(fn.entry), cfg=fx.cfg)
         _flush_on_ok(ctx, fx, fn, "send_unsigned_varint_payload")
+        _complete_writes(ctx, fx, fn, "send_unsigned_varint_payload", rx, True)
     # --- dispatch: every transport arm x codec goes to a guarded sender
     fn = ctx.fn(fx, S + "send_framed::{closure#0}", "R04.2")
     if fn is not None:
+        partial = [c for c in fn.calls(r"AsyncWriteExt::(write|write_vectored|write_buf)$|AsyncWrite::poll_write(_vectored)?$") if not c.from_macro]
+        ctx.ob("R04.2", "send_framed/no-partial-write-primitive", not partial, site=fn.site(partial[0].node) if partial else fn.site(fn.entry), cfg=fx.cfg)
         tsw = [sw for sw in fn.discr_switches() if sw[2] and sw[2].endswith("SubstreamType")]
         csw = [sw for sw in fn.discr_switches() if sw[2] and sw[2].endswith("ProtocolCodec")]
         ctx.anchor("R04.2", "send_framed: match on transport / codec (%s)" % fx.cfg, len(tsw) + len(csw), 1 if fx.cfg == "default" else 5, cfg=fx.cfg)
@@ -227,6 +256,33 @@ def r04_2(ctx, fx):
                 rx = r"^bytes$"
                 ctx.ob("R04.2", "send_framed/%s/UnsignedVarint-inline-writer-present" % tname, bool(wr), site=fn.site(sw[0]), cfg=fx.cfg)
                 size_guard(ctx, fx, fn, "R04.2", "send_framed/%s" % tname, [c.node for c in wr], rx, "varint")
+                for c in wr:
+                    # one whole-buffer write of [encoded length, payload], in that order
+                    arr = None
+                    o = c.args[-1]
+                    for _ in range(8):
+                        pl = op_place(o)
+                        d = fn.single_def(pl[0]) if pl else None
+                        if not d or d[1] != "assign":
+                            break
+                        rv = d[2]["rv"]
+                        if rv["r"] == "agg" and rv.get("adt") == "[array]":
+                            arr = rv["ops"]
+                            break
+                        if rv["r"] in ("use", "cast"):
+                            o = rv["o"]
+                        elif rv["r"] == "ref":
+                            o = {"c": rv["p"]}
+                        else:
+                            break
+                    ok = False
+                    why = "chunk array literal not found"
+                    if arr is not None and len(arr) == 2:
+                        r0, r1 = guards.rootstrs(fn, arr[0]), guards.rootstrs(fn, arr[1])
+                        b = [l for l, t in enumerate(fn.locals) if t == "bytes::Bytes" and fn.names.get(l)]
+                        ok = any("unsigned_varint::encode::usize" in x for x in r0) and bool(set(b) & slice_locals(fn, arr[1])) and not any("::index" in x or "slice" in x.lower() and "call:" in x for x in r1)
+                        why = "chunk[0] roots %s; chunk[1] roots %s" % (sorted(r0)[:6], sorted(r1)[:6])
+                    ctx.ob("R04.2", "send_framed/%s/chunks=[encoded-length,whole-payload]" % tname, ok, site=fn.site(c.node), cfg=fx.cfg, detail=why)
             # the payload passed on is the function's argument
             for c in [c for c in fn.calls(r"Substream::send_(identity|unsigned_varint)_payload$") if c.node in ida | vaa]:
                 idx = 2 if c.name.endswith("identity_payload") else 1
